@@ -30,7 +30,7 @@ THEOREMS["C09"] = [("Flurry.Props.C09", [
     "Flurry.C09.all_public_guarded", "Flurry.C09.check_guard_unconditional", "Flurry.C09.checkedUsesWith_sound", "Flurry.C09.checkedRow_sound",
     "Flurry.C09.checked_sound", "Flurry.C09.no_foreign_use"])]
 
-THEOREMS["C06"] = [("Flurry.Props.C12", ["Flurry.C12.find_searches_tree_under_read_lock", "Flurry.C12.find_writes_nothing_but_the_lock_word"]), ("Flurry.Props.C01BinK", ["Flurry.Proto.BinK.quiescent_tree_eq_list", "Flurry.Proto.BinK.conversion_abs_invariant"]), ("Flurry.Props.C01BinU", ["Flurry.Proto.BinU.tree_eq_list_unlocked", "Flurry.Proto.BinU.binu_inv", "Flurry.Proto.BinU.remove_locks_before_unlink", "Flurry.Proto.BinU.insert_locks_before_prepend"]), ("Flurry.Props.C06", [
+THEOREMS["C06"] = [("Flurry.Props.C01BinG", ["Flurry.Proto.BinG.quiescent_tree_eq_list"]), ("Flurry.Props.C12", ["Flurry.C12.find_searches_tree_under_read_lock", "Flurry.C12.find_writes_nothing_but_the_lock_word"]), ("Flurry.Props.C01BinK", ["Flurry.Proto.BinK.quiescent_tree_eq_list", "Flurry.Proto.BinK.conversion_abs_invariant"]), ("Flurry.Props.C01BinU", ["Flurry.Proto.BinU.tree_eq_list_unlocked", "Flurry.Proto.BinU.binu_inv", "Flurry.Proto.BinU.remove_locks_before_unlink", "Flurry.Proto.BinU.insert_locks_before_prepend"]), ("Flurry.Props.C06", [
     "Flurry.C06.treeify_inv", "Flurry.C06.insert_preserves", "Flurry.C06.remove_preserves",
     "Flurry.C06.untreeify_sizes", "Flurry.C06.set_value_preserves", "Flurry.C06.tree_find_iff_mem",
     "Flurry.C06.tree_find_none_iff", "Flurry.C06.lookup_cost", "Flurry.C06.height_log",
@@ -46,15 +46,15 @@ THEOREMS["C16"] = [("Flurry.Props.C16", [
 THEOREMS["C17"] = [("Flurry.Props.C17", [
     "Flurry.C17.inserting_needs_send_sync", "Flurry.C17.lookup_unbounded", "Flurry.C17.binentry_conditional"])]
 
-THEOREMS["C01"] = [("Flurry.Props.C01TableK", ["Flurry.Proto.TableK.tableK_map_linearizable", "Flurry.Proto.TableK.tableK_key_linearizable", "Flurry.Proto.TableK.tableK_key_linearizable_ext", "Flurry.Proto.TableK.tableK_bin_reachable", "Flurry.Proto.TableK.tableK_tick_is_bin_step", "Flurry.Proto.TableK.tableK_key_in_own_bin", "Flurry.Proto.TableK.tableK_other_bin_silent", "Flurry.Proto.TableK.tableK_one_bin_per_thread", "Flurry.Proto.TableK.tableK_proj_eq", "Flurry.Proto.TableK.tableK_inv_le_resp", "Flurry.Proto.TableK.bins_length"]), ("Flurry.Props.C01BinK", ["Flurry.Proto.BinK.binK_linearizable", "Flurry.Proto.BinK.binK_linearizable_quiescent", "Flurry.Proto.BinK.binK_inv", "Flurry.Proto.BinK.conversion_abs_invariant", "Flurry.Proto.BinK.quiescent_tree_eq_list", "Flurry.Proto.BinK.noCheck_refutes"]), ("Flurry.Props.C01BinU", ["Flurry.Proto.BinU.binu_linearizable", "Flurry.Proto.BinU.binu_linearizable_quiescent", "Flurry.Proto.BinU.binu_inv", "Flurry.Proto.BinU.tree_eq_list_unlocked", "Flurry.Proto.BinU.binu_f8order_not_linearizable", "Flurry.Proto.BinU.remove_locks_before_unlink", "Flurry.Proto.BinU.insert_locks_before_prepend"]), ("Flurry.Props.C01Local", ["Flurry.C01.locality", "Flurry.C01.locality_converse", "Flurry.C01.locality_iff", "Flurry.C01.untouched_key_unchanged"]), ("Flurry.Props.C01Source", ["Flurry.C01Source.every_bin_lock_is_rechecked", "Flurry.C01Source.lock_sites_present", "Flurry.C01Source.clear_waits_for_commit"]), ("Flurry.Props.C10", ["Flurry.C10.fill_then_forward_then_retire"]), ("Flurry.Props.C13", ["Flurry.C13.wrappers_delegate_by_name", "Flurry.C13.replace_node_keeps_its_condition"]), ("Flurry.Props.C12", ["Flurry.C12.find_searches_tree_under_read_lock", "Flurry.C12.find_writes_nothing_but_the_lock_word"]), ("Flurry.Props.C01Bin", ["Flurry.Proto.Bin.bin_linearizable", "Flurry.Proto.Bin.bin_linearizable_quiescent", "Flurry.Proto.Bin.bin_linearizable_writers", "Flurry.Proto.Bin.writers_mutex", "Flurry.Proto.Bin.writerStore_spec", "Flurry.Proto.Bin.reachable_inv"]), ("Flurry.Props.C01BinW", ["Flurry.Proto.BinW.binw_linearizable", "Flurry.Proto.BinW.binw_linearizable_quiescent", "Flurry.Proto.BinW.storeAt_eq_writerStore_reachable", "Flurry.Proto.BinW.walkers_mutex", "Flurry.Proto.BinW.binw_simulated"]), ("Flurry.Props.C01BinX", ["Flurry.Proto.BinX.binx_linearizable_quiescent", "Flurry.Proto.BinX.binx_linearizable", "Flurry.Proto.BinX.binx_linearizable_writers", "Flurry.Proto.BinX.transfer_abs_invariant", "Flurry.Proto.BinX.validated_mutex", "Flurry.Proto.BinX.resize_facts", "Flurry.Proto.BinX.chains_wellformed"]), ("Flurry.Lemmas.BinXExamples", ["Flurry.Proto.BinX.noCheck_refutes"]), ("Flurry.Lemmas.BinXCExamples", ["Flurry.Proto.BinXC.binxc_linearizable_quiescent", "Flurry.Proto.BinXC.binxc_linearizable", "Flurry.Proto.BinXC.retired_unreachable", "Flurry.Proto.BinXC.retired_dead", "Flurry.Proto.BinXC.validated_mutex", "Flurry.Proto.BinXC.new_table_after_moved", "Flurry.Proto.BinXC.noWait_retires_reachable", "Flurry.Proto.BinXC.noWait_not_linearizable"]), ("Flurry.Props.C01BinT", ["Flurry.Proto.BinT.bint_linearizable_quiescent", "Flurry.Proto.BinT.bint_linearizable", "Flurry.Proto.BinT.bint_linearizable_writers", "Flurry.Proto.BinT.bint_inv", "Flurry.Proto.BinT.remove_locks_before_unlink", "Flurry.Proto.BinT.insert_locks_before_prepend", "Flurry.Proto.BinT.bint_not_linearizable", "Flurry.Proto.BinT.not_bint_linearizable_quiescent"]), ("Flurry.Lemmas.BinWExamples", ["Flurry.Proto.BinW.noCheck_not_linearizable_doubleRemove", "Flurry.Proto.BinW.noCheck_not_linearizable_lostInsert", "Flurry.Proto.BinW.noCheck_refutes"]), ("Flurry.Props.C01", [
+THEOREMS["C01"] = [("Flurry.Props.C01BinG", ["Flurry.Proto.BinG.binG_linearizable_quiescent", "Flurry.Proto.BinG.binG_linearizable", "Flurry.Proto.BinG.binG_inv", "Flurry.Proto.BinG.transfer_abs_invariant", "Flurry.Proto.BinG.quiescent_tree_eq_list", "Flurry.Proto.BinG.example_runs_linearizable", "Flurry.Proto.BinG.noCheck_refutes"]), ("Flurry.Props.C01TableK", ["Flurry.Proto.TableK.tableK_map_linearizable", "Flurry.Proto.TableK.tableK_key_linearizable", "Flurry.Proto.TableK.tableK_key_linearizable_ext", "Flurry.Proto.TableK.tableK_bin_reachable", "Flurry.Proto.TableK.tableK_tick_is_bin_step", "Flurry.Proto.TableK.tableK_key_in_own_bin", "Flurry.Proto.TableK.tableK_other_bin_silent", "Flurry.Proto.TableK.tableK_one_bin_per_thread", "Flurry.Proto.TableK.tableK_proj_eq", "Flurry.Proto.TableK.tableK_inv_le_resp", "Flurry.Proto.TableK.bins_length"]), ("Flurry.Props.C01BinK", ["Flurry.Proto.BinK.binK_linearizable", "Flurry.Proto.BinK.binK_linearizable_quiescent", "Flurry.Proto.BinK.binK_inv", "Flurry.Proto.BinK.conversion_abs_invariant", "Flurry.Proto.BinK.quiescent_tree_eq_list", "Flurry.Proto.BinK.noCheck_refutes"]), ("Flurry.Props.C01BinU", ["Flurry.Proto.BinU.binu_linearizable", "Flurry.Proto.BinU.binu_linearizable_quiescent", "Flurry.Proto.BinU.binu_inv", "Flurry.Proto.BinU.tree_eq_list_unlocked", "Flurry.Proto.BinU.binu_f8order_not_linearizable", "Flurry.Proto.BinU.remove_locks_before_unlink", "Flurry.Proto.BinU.insert_locks_before_prepend"]), ("Flurry.Props.C01Local", ["Flurry.C01.locality", "Flurry.C01.locality_converse", "Flurry.C01.locality_iff", "Flurry.C01.untouched_key_unchanged"]), ("Flurry.Props.C01Source", ["Flurry.C01Source.every_bin_lock_is_rechecked", "Flurry.C01Source.lock_sites_present", "Flurry.C01Source.clear_waits_for_commit"]), ("Flurry.Props.C10", ["Flurry.C10.fill_then_forward_then_retire"]), ("Flurry.Props.C13", ["Flurry.C13.wrappers_delegate_by_name", "Flurry.C13.replace_node_keeps_its_condition"]), ("Flurry.Props.C12", ["Flurry.C12.find_searches_tree_under_read_lock", "Flurry.C12.find_writes_nothing_but_the_lock_word"]), ("Flurry.Props.C01Bin", ["Flurry.Proto.Bin.bin_linearizable", "Flurry.Proto.Bin.bin_linearizable_quiescent", "Flurry.Proto.Bin.bin_linearizable_writers", "Flurry.Proto.Bin.writers_mutex", "Flurry.Proto.Bin.writerStore_spec", "Flurry.Proto.Bin.reachable_inv"]), ("Flurry.Props.C01BinW", ["Flurry.Proto.BinW.binw_linearizable", "Flurry.Proto.BinW.binw_linearizable_quiescent", "Flurry.Proto.BinW.storeAt_eq_writerStore_reachable", "Flurry.Proto.BinW.walkers_mutex", "Flurry.Proto.BinW.binw_simulated"]), ("Flurry.Props.C01BinX", ["Flurry.Proto.BinX.binx_linearizable_quiescent", "Flurry.Proto.BinX.binx_linearizable", "Flurry.Proto.BinX.binx_linearizable_writers", "Flurry.Proto.BinX.transfer_abs_invariant", "Flurry.Proto.BinX.validated_mutex", "Flurry.Proto.BinX.resize_facts", "Flurry.Proto.BinX.chains_wellformed"]), ("Flurry.Lemmas.BinXExamples", ["Flurry.Proto.BinX.noCheck_refutes"]), ("Flurry.Lemmas.BinXCExamples", ["Flurry.Proto.BinXC.binxc_linearizable_quiescent", "Flurry.Proto.BinXC.binxc_linearizable", "Flurry.Proto.BinXC.retired_unreachable", "Flurry.Proto.BinXC.retired_dead", "Flurry.Proto.BinXC.validated_mutex", "Flurry.Proto.BinXC.new_table_after_moved", "Flurry.Proto.BinXC.noWait_retires_reachable", "Flurry.Proto.BinXC.noWait_not_linearizable"]), ("Flurry.Props.C01BinT", ["Flurry.Proto.BinT.bint_linearizable_quiescent", "Flurry.Proto.BinT.bint_linearizable", "Flurry.Proto.BinT.bint_linearizable_writers", "Flurry.Proto.BinT.bint_inv", "Flurry.Proto.BinT.remove_locks_before_unlink", "Flurry.Proto.BinT.insert_locks_before_prepend", "Flurry.Proto.BinT.bint_not_linearizable", "Flurry.Proto.BinT.not_bint_linearizable_quiescent"]), ("Flurry.Lemmas.BinWExamples", ["Flurry.Proto.BinW.noCheck_not_linearizable_doubleRemove", "Flurry.Proto.BinW.noCheck_not_linearizable_lostInsert", "Flurry.Proto.BinW.noCheck_refutes"]), ("Flurry.Props.C01", [
     "Flurry.C01.certificate_sound", "Flurry.C01.decision_correct", "Flurry.C01.not_linearizable_iff",
     "Flurry.C01.linearization_points", "Flurry.C01.no_resurrection", "Flurry.C01.reads_pure",
     "Flurry.C01.insert_then_read", "Flurry.C01.remove_then_read", "Flurry.C01.final_read"])]
-THEOREMS["C08"] = [("Flurry.Props.C01TableK", ["Flurry.Proto.TableK.tableK_map_linearizable"]), ("Flurry.Props.C01BinK", ["Flurry.Proto.BinK.binK_linearizable_quiescent", "Flurry.Proto.BinK.noCheck_refutes"]), ("Flurry.Props.C01BinU", ["Flurry.Proto.BinU.binu_linearizable_quiescent"]), ("Flurry.Props.C01Local", ["Flurry.C01.locality"]), ("Flurry.Props.C01Source", ["Flurry.C01Source.every_bin_lock_is_rechecked", "Flurry.C01Source.lock_sites_present", "Flurry.C01Source.clear_waits_for_commit"]), ("Flurry.Props.C13", ["Flurry.C13.wrappers_delegate_by_name"]), ("Flurry.Props.C01Bin", ["Flurry.Proto.Bin.bin_linearizable", "Flurry.Proto.Bin.bin_linearizable_quiescent", "Flurry.Proto.Bin.writers_mutex"]), ("Flurry.Props.C01BinW", ["Flurry.Proto.BinW.binw_linearizable_quiescent", "Flurry.Proto.BinW.storeAt_eq_writerStore_reachable"]), ("Flurry.Props.C01BinT", ["Flurry.Proto.BinT.bint_linearizable_quiescent"]), ("Flurry.Props.C08", [
+THEOREMS["C08"] = [("Flurry.Props.C01BinG", ["Flurry.Proto.BinG.binG_linearizable_quiescent", "Flurry.Proto.BinG.noCheck_refutes"]), ("Flurry.Props.C01TableK", ["Flurry.Proto.TableK.tableK_map_linearizable"]), ("Flurry.Props.C01BinK", ["Flurry.Proto.BinK.binK_linearizable_quiescent", "Flurry.Proto.BinK.noCheck_refutes"]), ("Flurry.Props.C01BinU", ["Flurry.Proto.BinU.binu_linearizable_quiescent"]), ("Flurry.Props.C01Local", ["Flurry.C01.locality"]), ("Flurry.Props.C01Source", ["Flurry.C01Source.every_bin_lock_is_rechecked", "Flurry.C01Source.lock_sites_present", "Flurry.C01Source.clear_waits_for_commit"]), ("Flurry.Props.C13", ["Flurry.C13.wrappers_delegate_by_name"]), ("Flurry.Props.C01Bin", ["Flurry.Proto.Bin.bin_linearizable", "Flurry.Proto.Bin.bin_linearizable_quiescent", "Flurry.Proto.Bin.writers_mutex"]), ("Flurry.Props.C01BinW", ["Flurry.Proto.BinW.binw_linearizable_quiescent", "Flurry.Proto.BinW.storeAt_eq_writerStore_reachable"]), ("Flurry.Props.C01BinT", ["Flurry.Proto.BinT.bint_linearizable_quiescent"]), ("Flurry.Props.C08", [
     "Flurry.C08.counter_no_lost_update", "Flurry.C08.absent_not_applied", "Flurry.C08.replaces_what_it_read",
     "Flurry.C08.removal_is_atomic"])]
 
-THEOREMS["C10"] = THEOREMS["C10"] + [("Flurry.Props.C10", ["Flurry.C10." + n for n in "helper_accounting bin_migrated_at_most_once all_bins_migrated_at_publication one_finisher one_publication_per_generation generations_do_not_overlap initiation_only_from_idle quiescent_after_resize resize_completes no_stale_join joiner_holds_current_generation join_admits_current_generation help_refusal_matches_model fill_then_forward_then_retire add_count_access_order help_transfer_access_order".split()])]
+THEOREMS["C10"] = THEOREMS["C10"] + [("Flurry.Props.C01BinG", ["Flurry.Proto.BinG.transfer_abs_invariant", "Flurry.Proto.BinG.binG_inv"]), ("Flurry.Props.C10", ["Flurry.C10." + n for n in "helper_accounting bin_migrated_at_most_once all_bins_migrated_at_publication one_finisher one_publication_per_generation generations_do_not_overlap initiation_only_from_idle quiescent_after_resize resize_completes no_stale_join joiner_holds_current_generation join_admits_current_generation help_refusal_matches_model fill_then_forward_then_retire add_count_access_order help_transfer_access_order".split()])]
 
 
 THEOREMS["C15"] = [("Flurry.Props.C15", ["Flurry.C15." + n for n in "handover_hb path_hb relaxed_writes_private publication_points_release reader_loads_acquire read_lock_rmw_acqrel control_words_synchronise sites_present".split()])]
@@ -64,13 +64,13 @@ def _thms(ns, names):
     return ["Flurry.%s.%s" % (ns, n) for n in names.split()]
 
 THEOREMS["C02"] = [("Flurry.Props.C02", _thms("C02", "step_refines len_spec seq_refines seq_refines_from first_key_kept try_insert_present"))]
-THEOREMS["C05"] = [("Flurry.Props.C01BinK", ["Flurry.Proto.BinK.quiescent_tree_eq_list", "Flurry.Proto.BinK.binK_linearizable_quiescent"]), ("Flurry.Props.C05", _thms("C05", "iter_agrees iter_agrees_abs wf_reachable wf_reachable_new wf_reachable_collect wf_reachable_clone wf_unfold"))]
+THEOREMS["C05"] = [("Flurry.Proto.Count", ["Flurry.Proto.Count.quiescent_count_eq_size", "Flurry.Proto.Count.count_lags_by_owed", "Flurry.Proto.Count.ret_only_when_settled", "Flurry.Proto.Count.reachable_inv"]), ("Flurry.Props.C01BinG", ["Flurry.Proto.BinG.quiescent_tree_eq_list", "Flurry.Proto.BinG.binG_inv"]), ("Flurry.Props.C01BinK", ["Flurry.Proto.BinK.quiescent_tree_eq_list", "Flurry.Proto.BinK.binK_linearizable_quiescent"]), ("Flurry.Props.C05", _thms("C05", "iter_agrees iter_agrees_abs wf_reachable wf_reachable_new wf_reachable_collect wf_reachable_clone wf_unfold"))]
 THEOREMS["C13"] = [("Flurry.Props.C13", _thms("C13", "retain_eq_filter retain_force_eq_filter retain_removes_only_rejected retain_capacity wrappers_delegate_by_name replace_node_keeps_its_condition"))]
 THEOREMS["C14"] = THEOREMS["C14"] + [("Flurry.Props.C14", _thms("C14", "removals_pass_no_hint removal_calls_present never_shrinks removal_never_grows threshold_three_quarters grow_only_when grow_only_when_ins grow_only_when_uninit no_growth_below_threshold no_growth_with_room no_growth_with_room_bins no_growth_with_room_hash reserve_threshold_room no_growth_after_reserve no_growth_after_reserve_bins table_len_pow2 reachable_never_shrinks reachable_removal_never_grows reachable_table_len_pow2"))]
 THEOREMS["C18"] = [("Flurry.Props.C18", _thms("C18", "cip_panic_unchanged cip_panics_iff cip_no_write_before_callback retain_panic_prefix retain_loop_append after_panic_continues cip_panic_absMap"))]
 THEOREMS["C03"] = [("Flurry.Props.C09", ["Flurry.C09.all_public_guarded", "Flurry.C09.check_guard_unconditional", "Flurry.C09.no_foreign_use"]), ("Flurry.Props.C01Source", ["Flurry.C01Source.every_bin_lock_is_rechecked", "Flurry.C01Source.lock_sites_present", "Flurry.C01Source.clear_waits_for_commit"]), ("Flurry.Props.C10", ["Flurry.C10.fill_then_forward_then_retire"]), ("Flurry.Lemmas.BinXCExamples", ["Flurry.Proto.BinXC.retired_unreachable", "Flurry.Proto.BinXC.retired_dead", "Flurry.Proto.BinXC.noWait_retires_reachable"]), ("Flurry.Props.C03", _thms("C03", "held_references_valid no_touch_after_free free_waits_for_holders retire_only_after_unlink unlinked_not_acquirable unprotected_guard_is_unsafe publication_needs_guard"))]
 THEOREMS["C04"] = [("Flurry.Lemmas.BinXCExamples", ["Flurry.Proto.BinXC.retired_dead", "Flurry.Proto.BinXC.binxc_linearizable_quiescent"]), ("Flurry.Props.C04", _thms("C04", "freed_at_most_once freed_only_after_guards freed_was_retired retired_is_eventually_freed refused_insert_changes_nothing"))]
-THEOREMS["C07"] = [("Flurry.Props.C01BinK", ["Flurry.Proto.BinK.binK_linearizable_quiescent", "Flurry.Proto.BinK.conversion_abs_invariant"]), ("Flurry.Props.C01BinU", ["Flurry.Proto.BinU.binu_linearizable_quiescent", "Flurry.Proto.BinU.binu_f8order_not_linearizable", "Flurry.Proto.BinU.insert_locks_before_prepend"]), ("Flurry.Props.C10", ["Flurry.C10.fill_then_forward_then_retire"]), ("Flurry.Props.C07", _thms("C07", "traverse_frozen yields_each_once terminates quiescent_order"))]
+THEOREMS["C07"] = [("Flurry.Props.C01BinG", ["Flurry.Proto.BinG.binG_linearizable_quiescent", "Flurry.Proto.BinG.transfer_abs_invariant"]), ("Flurry.Props.C01BinK", ["Flurry.Proto.BinK.binK_linearizable_quiescent", "Flurry.Proto.BinK.conversion_abs_invariant"]), ("Flurry.Props.C01BinU", ["Flurry.Proto.BinU.binu_linearizable_quiescent", "Flurry.Proto.BinU.binu_f8order_not_linearizable", "Flurry.Proto.BinU.insert_locks_before_prepend"]), ("Flurry.Props.C10", ["Flurry.C10.fill_then_forward_then_retire"]), ("Flurry.Props.C07", _thms("C07", "traverse_frozen yields_each_once terminates quiescent_order"))]
 THEOREMS["C11"] = [("Flurry.Props.C12", _thms("C12", "find_loop_never_idles model_decision_is_source_decision")), ("Flurry.Props.C11", _thms("C11", "no_lost_wakeup writer_not_blocked_without_readers never_stuck writer_eventually_enabled parked_writer_woken writer_excludes_tree_readers accepted_stream_theorems")), ("Flurry.Proto.RwLockMonitor", ["Flurry.Proto.RwLockMonitor.accepted_is_reachable"])]
 THEOREMS["C12"] = [("Flurry.Props.C12", _thms("C12", "roots_in_closure roots_named reach_closed reader_lock_free roots_present reader_never_blocked tree_readers_exclude_writer find_loop_never_idles find_linear_iff_bits model_decision_is_source_decision find_searches_tree_under_read_lock find_writes_nothing_but_the_lock_word")),
                    ("Flurry.Props.C12Bins", ["Flurry.Proto.BinT.reader_step_enabled", "Flurry.Proto.BinT.reader_step_frame", "Flurry.Proto.BinT.reader_solo_terminates",
